@@ -27,15 +27,12 @@ pub fn to_fq4(f: &F12) -> Fq4 {
     Fq4::new(ifq2(&f.0[0], &f.0[6]), ifq2(&f.0[3], &f.0[9]))
 }
 pub fn from_fq4(x: &Fq4) -> Result<F12, Bad> {
-    let b = x.to_slice();
-    let mut f = F12::zero();
-    // bytes: c1.im, c1.re, c0.im, c0.re  =  v^3, v^1, v^2, v^0
-    for (i, pos) in [9usize, 3, 6, 0].iter().enumerate() {
-        let v = refmodel::from_be(&b[32 * i..32 * i + 32]);
-        if &v >= q() {
-            return mccore::bad("limb>=q", "an Fq4 element serialises with a 32-byte limb >= q".into());
-        }
-        f.0[*pos] = v;
+    // read through the Fq12 serialisation (whose byte order is pinned by the public Gt::to_slice), not through
+    // Fq4::to_slice, whose layout is an internal detail: x sits in the c0 block of (x, 0, 0)
+    use sm9_core::Zero;
+    let f = from_fq12(&Fq12::new(*x, Fq4::zero(), Fq4::zero()))?;
+    if !is_fq4(&f) {
+        return mccore::bad("wrong-value", format!("Fq12::new(x, 0, 0) does not serialise as an element of F_q4: {}", jf(&f)));
     }
     Ok(f)
 }
